@@ -79,9 +79,12 @@ impl FileLocation {
                 panic!("Texlang does not have support for file areas yet");
             }
         };
-        path.push(std::ffi::OsString::from(&self.path));
-        path.set_extension(std::ffi::OsString::from(
-            self.extension.as_deref().unwrap_or(default_extension),
+        // The extension is appended, not set with `PathBuf::set_extension`: that would replace
+        // whatever follows the last dot of the name itself (`a.b` + `tex` must be `a.b.tex`).
+        path.push(format!(
+            "{}.{}",
+            self.path,
+            self.extension.as_deref().unwrap_or(default_extension)
         ));
         if !path.is_absolute() {
             panic!("TODO: handle this error (path is relative and no working directory set)");
